@@ -268,6 +268,18 @@ def run(ck):
                     nst += 1
                     if 'attr' not in u(n.targets[0].slice):
                         bulk_bad.append(u(n))
+        exact = True
+        nwith = 0
+        for pl in per:
+            st_ = stmts_with_env(fn, lambda s: isinstance(s, ast.Assign) and "'_old_' + attr" in u(s.targets[0]), stmts=pl.body)
+            if not st_:
+                continue
+            nwith += 1
+            any_ = flow.OR(*[c for s, c, e in st_])
+            exact = exact and flow.equivalent(any_, ('atom', ('In', 'attr', 'attribute_stash')))[0]
+        exact = exact and nwith == 1
+        ck.ob('SIB-stash', mod.loc(br), exact, '{} branch: "_old_<attr>" is stored exactly when the attribute is to be stashed -- also when the attribute itself is copied to the '
+              'particle in the same pass'.format(label), key='SIB-stash|exact|' + label)
         ck.ob('BULK-per-attribute', mod.loc(br), per and not bulk_bad and nst >= 1,
               '{} branch: inside the per-attribute loop only the attribute being tested is written ({} store(s){})'.format(
                   label, nst, '; whole-dict writes: ' + '; '.join(bulk_bad) if bulk_bad else ''), key='BULK-per-attribute|' + label)
